@@ -40,10 +40,12 @@ TRUSTED = [
 ]
 ASSUMPTIONS = [
     "ids passed to the storage are the strings it handed out or strings of the same shape ('n', 'n.m'); keys are str; values are None/int/str/list/tuple/dict trees (what pickle and deepcopy treat structurally)",
-    "load_jobs / load_search_value / load_out_from_all_jobs / load_metadata_from_all_jobs return live references on MemoryStorage (by reading); the property only names load_job / load_search as snapshots, so only those are re-compared",
+    "aliasing is judged strictly (streams aliasing_store / aliasing_load / through_evaluator): an object handed to store_* or obtained from ANY load may be edited by the caller afterwards without changing what is stored - the property text names load_job / load_search; for the other loads and for the store side this is what 'returns the last value stored' and 'SharedMemoryStorage gives the same answers' require once the caller's edits are part of the history (findings F78 / F79)",
+    "keys are str, None or int (no bool: True == 1 as a dictionary key); integer keys are not used with store_job_metadata (a metadata slot replaced by a list would be indexed by them)",
     "concurrency: each client operation is atomic on the server (GIL + certificate); real OS schedules are sampled, not enumerated - the Coq theorem C13_interleaving covers every schedule of atomic operations",
 ]
-RULE = ("exhaustive: every history of length L (4 quick / 5 thorough; all shorter ones are its prefixes) over a fixed 18-operation alphabet (2 searches x 3 jobs x 2 keys) with a full audit after every step, in batches of 18^(L-2); "
+RULE = ("values include None/0/False/''/[]/{}/-0.0/nan/inf/2**70/numpy scalars and arrays/dicts with None, '' and integer keys; "
+        "exhaustive: every history of length L (4 quick / 5 thorough; all shorter ones are its prefixes) over a fixed 18-operation alphabet (2 searches x 3 jobs x 2 keys) with a full audit after every step, in batches of 18^(L-2); "
         "random: generated histories (length <= 60 quick / 200 thorough) over all 17 public methods, valid and invalid ids, nested mutable values; "
         "non-trivial = at least one successful store followed by a load of the same job, or an error answer")
 
